@@ -4,6 +4,9 @@ import (
 	"bytes"
 	"context"
 	"fmt"
+	"hash/adler32"
+	"hash/crc32"
+	"hash/fnv"
 	"sync"
 
 	"github.com/glebziz/fs_db/pkg/verif"
@@ -125,4 +128,135 @@ func c19Parallel(tier string, seed int64, idx int, scratch string) rt.CaseResult
 		c.Sample = map[string]any{"goroutines": workers, "records_each": n}
 	}
 	return c
+}
+
+func init() {
+	p := Registry["C19"]
+	p.Roles["mixed"] = Role{N: func(t string) int { return tierN(t, 4, 32) }, Case: c19Mixed}
+	p.Rule += " Role mixed: one record shorter than the header among 2-40 valid ones, at every position of the store's key order: GetAll must refuse the store as a whole. Role collide (with C05 role bulk's database-level twin): pairs of keys that collide under the 32-bit hash functions a cache or an interning table might use (CRC-32 IEEE and Castagnoli, FNV-1/1a, Adler-32, the 31-multiplier string hash, djb2; found by search at run time) are stored side by side: each record must come back under its own key."
+}
+
+// c19Mixed: a short record is refused wherever it sits.
+func c19Mixed(tier string, seed int64, idx int, scratch string) rt.CaseResult {
+	var c rt.CaseResult
+	rng := seqrun.Rng(seed, "C19x", idx)
+	for rep := 0; rep < tierN(tier, 60, 400); rep++ {
+		n := 2 + rng.Intn(39)
+		type rec struct {
+			id string
+			f  verif.File
+		}
+		recs := make([]rec, n)
+		for i := range recs {
+			f := verif.File{Key: fmt.Sprintf("k%d", i), Seq: verif.Seq(rng.Uint64()), TxId: randUUID(rng), ContentId: randUUID(rng)}
+			recs[i] = rec{f.ContentId, f}
+		}
+		// position of the bad record in the store's key order (content-id order)
+		ids := make([]string, n)
+		for i := range recs {
+			ids[i] = recs[i].id
+		}
+		sortStrings(ids)
+		pos := []int{0, n - 1, n / 2, rng.Intn(n)}[rep%4]
+		p := &recProvider{data: map[string][]byte{}}
+		badLen := rng.Intn(40)
+		for _, r := range recs {
+			b := specEncode(r.f)
+			if r.id == ids[pos] {
+				b = b[:badLen]
+			}
+			p.data["file/"+r.id] = b
+		}
+		c.Evals++
+		files, err := verif.NewFileRepo(p).GetAll(context.Background())
+		if err == nil {
+			c.Violate("short-record-accepted among-valid-records", fmt.Sprintf("%d records, the one at position %d of the key order is %d bytes long (shorter than the header): GetAll returned %d records and no error", n, pos, badLen, len(files)), map[string]any{"records": n, "position": pos, "length": badLen})
+			return c
+		}
+		c.AddDistinct(fmt.Sprintf("mixed/pos=%s", map[int]string{0: "first", 1: "last", 2: "middle", 3: "random"}[rep%4]))
+	}
+	// colliding keys
+	for _, pair := range collidingKeyPairs(seed + int64(idx)) {
+		p := &recProvider{data: map[string][]byte{}}
+		want := map[string]verif.File{}
+		for i, k := range []string{pair.a, "unrelated", pair.b} {
+			f := verif.File{Key: k, Seq: verif.Seq(100 + i), TxId: randUUID(rng), ContentId: randUUID(rng)}
+			p.data["file/"+f.ContentId] = specEncode(f)
+			want[f.ContentId] = f
+		}
+		c.Evals++
+		files, err := verif.NewFileRepo(p).GetAll(context.Background())
+		if err != nil || len(files) != 3 {
+			c.Violate("decode-many-count colliding-keys", fmt.Sprintf("GetAll of 3 records returned %d (%v)", len(files), err), map[string]any{"hash": pair.hash})
+			return c
+		}
+		for _, f := range files {
+			if w := want[f.ContentId]; f != w {
+				c.Violate("decode-mismatch colliding-keys hash="+pair.hash, fmt.Sprintf("two keys with the same %s value (%q, %q) in one store: the record of %q came back with key %q", pair.hash, pair.a, pair.b, w.Key, f.Key), map[string]any{"hash": pair.hash, "a": pair.a, "b": pair.b})
+				return c
+			}
+		}
+		c.AddDistinct("collide/" + pair.hash)
+	}
+	if idx == 0 {
+		c.Sample = map[string]any{"scenario": "a short record among valid ones; hash-colliding keys"}
+	}
+	return c
+}
+
+func sortStrings(s []string) {
+	for i := 1; i < len(s); i++ {
+		for j := i; j > 0 && s[j] < s[j-1]; j-- {
+			s[j], s[j-1] = s[j-1], s[j]
+		}
+	}
+}
+
+type keyPair struct{ hash, a, b string }
+
+// collidingKeyPairs finds, for each of several 32-bit hash functions, two distinct keys with the
+// same hash value (birthday search over keys "session/<16 hex digits>"; a few hundred thousand
+// candidates at most).
+func collidingKeyPairs(seed int64) []keyPair {
+	hashes := []struct {
+		name string
+		fn   func(string) uint32
+	}{
+		{"crc32-ieee", func(s string) uint32 { return crc32.ChecksumIEEE([]byte(s)) }},
+		{"crc32-castagnoli", func(s string) uint32 { return crc32.Checksum([]byte(s), crc32.MakeTable(crc32.Castagnoli)) }},
+		{"fnv32", func(s string) uint32 { h := fnv.New32(); h.Write([]byte(s)); return h.Sum32() }},
+		{"fnv32a", func(s string) uint32 { h := fnv.New32a(); h.Write([]byte(s)); return h.Sum32() }},
+		{"adler32", func(s string) uint32 { return adler32.Checksum([]byte(s)) }},
+		{"times31", func(s string) uint32 {
+			var h uint32
+			for i := 0; i < len(s); i++ {
+				h = h*31 + uint32(s[i])
+			}
+			return h
+		}},
+		{"djb2", func(s string) uint32 {
+			h := uint32(5381)
+			for i := 0; i < len(s); i++ {
+				h = h*33 + uint32(s[i])
+			}
+			return h
+		}},
+	}
+	var out []keyPair
+	castagnoli := crc32.MakeTable(crc32.Castagnoli)
+	_ = castagnoli
+	for hi, h := range hashes {
+		rng := seqrun.Rng(seed, "collide", hi)
+		seen := map[uint32]string{}
+		for i := 0; i < 2_000_000; i++ {
+			k := fmt.Sprintf("session/%016x", rng.Uint64())
+			v := h.fn(k)
+			if o, ok := seen[v]; ok && o != k {
+				out = append(out, keyPair{h.name, o, k})
+				break
+			}
+			seen[v] = k
+		}
+	}
+	return out
 }
